@@ -168,6 +168,19 @@ def serialize(cfg: dict, stmts: list, ns: list | None = None) -> bytes:
             store = rdflib_store_of(stmts, ns, dataset=cfg["physical"] != 1, empty_graphs=cfg.get("empty_graphs"))
             options = make_options(cfg)
             store.serialize(out, format="jelly", options=options, stream=make_stream(cfg, options))
+        elif entry == "graph_serialize_path":
+            import os
+            import tempfile
+            store = rdflib_store_of(stmts, ns, dataset=cfg["physical"] != 1, empty_graphs=cfg.get("empty_graphs"))
+            fd, path = tempfile.mkstemp(suffix=".jelly", prefix="rv-ser-")
+            os.close(fd)
+            try:
+                options = make_options(cfg)
+                store.serialize(destination=path, format="jelly", options=options, stream=make_stream(cfg, options))
+                with open(path, "rb") as f:
+                    out.write(f.read())
+            finally:
+                os.unlink(path)
         elif entry == "graph_serialize_options":
             store = rdflib_store_of(stmts, ns, dataset=cfg["physical"] != 1, empty_graphs=cfg.get("empty_graphs"))
             store.serialize(out, format="jelly", options=make_options(cfg))
@@ -198,6 +211,17 @@ def serialize(cfg: dict, stmts: list, ns: list | None = None) -> bytes:
 PARSE_ENTRIES = ("flat", "grouped", "to_graph")
 
 
+def parse_flat_prefetched(integration: str, data_or_file: Any) -> list:
+    """The documented two-step use: read options and frames first, then hand both to parse_jelly_flat."""
+    from pyjelly.parse.ioutils import get_options_and_frames
+
+    inp = io.BytesIO(data_or_file) if isinstance(data_or_file, (bytes, bytearray)) else data_or_file
+    options, frames = get_options_and_frames(inp)
+    if integration == "generic":
+        return [T.event_from_generic(i) for i in gparse.parse_jelly_flat(inp, frames=frames, options=options)]
+    return [T.event_from_rdflib(i) for i in rparse.parse_jelly_flat(inp, frames=frames, options=options)]
+
+
 def parse(integration: str, entry: str, data_or_file: Any, **kw) -> list:
     """Parse with one entry point; neutral events in the order delivered.
 
@@ -206,6 +230,8 @@ def parse(integration: str, entry: str, data_or_file: Any, **kw) -> list:
     to_graph -> generic: events in store order; rdflib: ns events then statements (a *set*)
     """
     inp = io.BytesIO(data_or_file) if isinstance(data_or_file, (bytes, bytearray)) else data_or_file
+    if entry == "flat-prefetched":
+        return parse_flat_prefetched(integration, inp)
     if integration == "generic":
         if entry == "flat":
             return [T.event_from_generic(i) for i in gparse.parse_jelly_flat(inp, **kw)]
